@@ -104,6 +104,17 @@ Theorem C05_fetchall :
 Proof. exact C05_fetchall_l. Qed.
 Print Assumptions C05_fetchall.
 
+(* FetchAll on the built-in stores (the model's FetchAll, which the correspondence runs
+   after every push and on the final state) *)
+Theorem C05_fetchall_stores :
+  forall (H : str -> str -> str),
+  (forall m d b, mem_fetch_all H m d = (None, b) -> mem_get m d = Some b /\ matches_desc H (d_dg d) (d_sz d) b) /\
+  (forall s d b, oci_fetch_all H s d = (None, b) -> oci_get s (d_dg d) = Some b /\ matches_desc H (d_dg d) (d_sz d) b) /\
+  (forall s name d b, file_fetch_all H s name d = (None, b) ->
+                      file_fetch s name d = Some b /\ matches_desc H (d_dg d) (d_sz d) b).
+Proof. exact fetch_all_stores. Qed.
+Print Assumptions C05_fetchall_stores.
+
 (* any use of a VerifyReader (any sequence of Read(k) and Verify calls): once
    Verify returns nil the bytes read are exactly the descriptor's, the source is
    exhausted, and the reader stays at EOF *)
